@@ -1,6 +1,6 @@
 Require Extraction.
 Require Import ExtrOcamlBasic.
-From LH Require Import Base.Bytes Base.Res Model.Lexer Model.Ast Model.Parser Model.Number Model.LuaFront Spec.LuaUsage Model.Usage.
+From LH Require Import Base.Bytes Base.Res Model.Lexer Model.Ast Model.Parser Model.Number Model.LuaFront Spec.LuaUsage Model.Usage Proofs.UsageBindUndef Proofs.UsageBindUnused.
 Extraction "c07model.ml" extract_anchor tk_code parse_bytes classify_tok
   parse_file in_fragment multi_local_order pos_clean first_pass s1_gmap gnames go_diags spec_diags
-  later_elsewhere trace file_occs file_decls.
+  later_elsewhere trace file_occs file_decls decl_locs_distinct flags_ok.
